@@ -1,0 +1,53 @@
+//go:build verif
+// +build verif
+
+package m3
+
+import (
+	"sync/atomic"
+
+	m3thrift "github.com/uber-go/tally/v4/m3/thrift/v2"
+)
+
+// VerifBatch describes one batch at the moment it is emitted. The slices are
+// only valid during the callback.
+type VerifBatch struct {
+	Metrics       []m3thrift.Metric
+	Charged       []int32
+	CommonTags    []m3thrift.MetricTag
+	FreeBytes     int32
+	OverheadBytes int32
+	Reporter      Reporter
+}
+
+type verifState struct {
+	charged []int32
+}
+
+type verifBatchHolder struct{ f func(VerifBatch) }
+
+var verifBatchHook atomic.Value
+
+// VerifSetBatchHook installs (or with nil removes) the batch observer.
+func VerifSetBatchHook(f func(VerifBatch)) {
+	verifBatchHook.Store(verifBatchHolder{f: f})
+}
+
+func (r *reporter) verifCharge(size int32) {
+	r.verif.charged = append(r.verif.charged, size)
+}
+
+func (r *reporter) verifEmit(mets []m3thrift.Metric) {
+	charged := r.verif.charged
+	r.verif.charged = r.verif.charged[:0]
+	if h, ok := verifBatchHook.Load().(verifBatchHolder); ok && h.f != nil {
+		h.f(VerifBatch{
+			Metrics:       mets,
+			Charged:       charged,
+			CommonTags:    r.commonTags,
+			FreeBytes:     r.freeBytes,
+			OverheadBytes: r.overheadBytes,
+			Reporter:      r,
+		})
+	}
+}
